@@ -135,6 +135,29 @@ fn merged_before_failure(before: &Dump, header: &Header, lines: &[Line], keys: &
     false
 }
 
+/// Two existing nodes share a label and a normalised value of a dedup key: which of them the
+/// importer's index keeps depends on hash-set iteration order, so the outcome is not a
+/// function of the inputs (the model iterates in id order). Such imports are not generated.
+fn ambiguous(before: &Dump, keys: &[String]) -> bool {
+    let mut seen: std::collections::HashMap<(String, String, String), u64> = std::collections::HashMap::new();
+    for n in &before.nodes {
+        for l in &n.labels {
+            for k in keys {
+                for m in [&n.row, &n.col] {
+                    if let Some(v) = m.get(k).and_then(dval_pv) {
+                        if let Some(prev) = seen.insert((l.clone(), k.clone(), v), n.id) {
+                            if prev != n.id {
+                                return true;
+                            }
+                        }
+                    }
+                }
+            }
+        }
+    }
+    false
+}
+
 struct Step {
     bytes: Vec<u8>,
     keys: Vec<String>,
@@ -180,6 +203,10 @@ fn run_chain(out: &mut Out, mut store: GraphStore, steps: Vec<Step>, tag: &str) 
     let mut verdict: Option<(String, Option<&'static str>)> = None;
     for st in &steps {
         let before = dump(&store);
+        if ambiguous(&before, &st.keys) {
+            out.count("ambiguous_dedup_target_skipped");
+            break;
+        }
         let (header, lines) = read_stream(&st.bytes);
         let keys: Vec<&str> = st.keys.iter().map(|s| s.as_str()).collect();
         let res = catch(std::panic::AssertUnwindSafe(|| {
